@@ -322,27 +322,27 @@ type deferred struct {
 }
 
 type State struct {
-	Frames  map[int]*Frame
-	Heaps   map[string]Term
-	Globals map[*ssa.Global]Val
-	PC      []Term // path condition (assumptions)
-	Top     Term   // allocation watermark: every reference known so far has root <= Top
-	Tags    map[string]types.Type
-	Trace   []string
-	Base    string            // name prefix of heap components not touched so far
+	Frames      map[int]*Frame
+	Heaps       map[string]Term
+	Globals     map[*ssa.Global]Val
+	PC          []Term // path condition (assumptions)
+	Top         Term   // allocation watermark: every reference known so far has root <= Top
+	Tags        map[string]types.Type
+	Trace       []string
+	Base        string // name prefix of heap components not touched so far
 	PendingBase map[string]string
 }
 
 func (s *State) Clone() *State {
 	n := &State{
-		Frames:  make(map[int]*Frame, len(s.Frames)),
-		Heaps:   make(map[string]Term, len(s.Heaps)),
-		Globals: make(map[*ssa.Global]Val, len(s.Globals)),
-		PC:      append([]Term(nil), s.PC...),
-		Top:     s.Top,
-		Tags:    make(map[string]types.Type, len(s.Tags)),
-		Trace:   append([]string(nil), s.Trace...),
-		Base:    s.Base,
+		Frames:      make(map[int]*Frame, len(s.Frames)),
+		Heaps:       make(map[string]Term, len(s.Heaps)),
+		Globals:     make(map[*ssa.Global]Val, len(s.Globals)),
+		PC:          append([]Term(nil), s.PC...),
+		Top:         s.Top,
+		Tags:        make(map[string]types.Type, len(s.Tags)),
+		Trace:       append([]string(nil), s.Trace...),
+		Base:        s.Base,
 		PendingBase: make(map[string]string, len(s.PendingBase)),
 	}
 	for k, v := range s.PendingBase {
